@@ -281,8 +281,7 @@ impl Add for Value {
             (Value::Float(lf), Value::Float(rf)) => Ok(Value::from_float((lf + rf).0)),
             (Value::Int(li), Value::Int(ri)) => match li.checked_add(ri) {
                 Some(res) => Ok(Value::Int(res)),
-                // not an i64: the (rounded) float, marked as such even when it is -2^63 exactly
-                None => Ok(Value::Float(OrderedFloat(li as f64 + ri as f64))),
+                None => Ok(Value::from_float(li as f64 + ri as f64)),
             },
             (left, right) => left.binary_op(&f64::add, "+", &right),
         }
@@ -306,8 +305,7 @@ impl Sub for Value {
             (Value::Float(lf), Value::Float(rf)) => Ok(Value::from_float((lf - rf).0)),
             (Value::Int(li), Value::Int(ri)) => match li.checked_sub(ri) {
                 Some(res) => Ok(Value::Int(res)),
-                // not an i64: the (rounded) float, marked as such even when it is -2^63 exactly
-                None => Ok(Value::Float(OrderedFloat(li as f64 - ri as f64))),
+                None => Ok(Value::from_float(li as f64 - ri as f64)),
             },
             (left, right) => left.binary_op(&f64::sub, "-", &right),
         }
@@ -336,8 +334,7 @@ impl Mul for Value {
             (Value::Float(lf), Value::Float(rf)) => Ok(Value::from_float((lf * rf).0)),
             (Value::Int(li), Value::Int(ri)) => match li.checked_mul(ri) {
                 Some(res) => Ok(Value::Int(res)),
-                // not an i64: the (rounded) float, marked as such even when it is -2^63 exactly
-                None => Ok(Value::Float(OrderedFloat(li as f64 * ri as f64))),
+                None => Ok(Value::from_float(li as f64 * ri as f64)),
             },
             (left, right) => left.binary_op(&f64::mul, "*", &right),
         }
